@@ -143,6 +143,7 @@ type Engine struct {
 	preLock  []ident
 	lastU    []ident
 	closed   bool
+	hung     bool
 	step     int
 	tagN     int
 	lapseEnd int64
@@ -260,7 +261,11 @@ func New(r *rand.Rand, cfg Config, st *Stats) (*Engine, error) {
 		e.Ag.Close()
 		return nil, err
 	}
-	e.Shim = sh
+	e.Shim = &Guarded{Inner: sh, OnHang: func(op string) {
+		e.hung = true
+		e.disc([]string{"C10", "C11"}, "operation-does-not-return:"+op, hangDetail(op))
+		e.Ag.Close()
+	}}
 	if cfg.LockFaultPct > 0 || cfg.FragmentPct > 0 {
 		pr := rand.New(rand.NewSource(r.Int63()))
 		var pmu sync.Mutex
@@ -1387,6 +1392,9 @@ func (e *Engine) Run() {
 				break
 			}
 			x -= o.w
+		}
+		if e.hung {
+			return
 		}
 		e.St.ModelStates[e.stateSig(e.snapshotU())] = struct{}{}
 		if len(e.Disc) > 3 {
